@@ -166,6 +166,25 @@ struct Scenario {
     domain_rows: Vec<(&'static str, Vec<Row>)>,
 }
 
+/// ops that may stand in for `name` in a minimal pattern (narrower statement of the same kind)
+fn simpler_names(name: &str) -> &'static [&'static str] {
+    match name {
+        "delall" => &["del1", "del2", "delnull", "delv1"],
+        "delpall" => &["delp1"],
+        "updkeyall1" => &["updkey21", "updkeynull1", "updkey11"],
+        "updallnull" => &["upd1null"],
+        _ => &[],
+    }
+}
+impl Scenario {
+    fn simpler(&self, oi: usize) -> Vec<usize> {
+        simpler_names(&self.ops[oi].name).iter().filter_map(|n| self.ops.iter().position(|o| o.name == *n)).collect()
+    }
+    fn reduces_to(&self, h: usize, p: usize) -> bool {
+        h == p || self.simpler(h).contains(&p)
+    }
+}
+
 fn ins(table: &str, row: Vec<V>) -> Stmt {
     Stmt::Insert(Insert::literals(table, &[], vec![row]))
 }
@@ -759,8 +778,8 @@ impl<'a> Runner<'a> {
         }
     }
 
-    /// 1-minimal sub-history (single removals and BEGIN..ROLLBACK/COMMIT pair removals) that keeps
-    /// the last step and its verdict.  Deterministic; a fixpoint of itself.
+    /// Minimal history (single removals, BEGIN..ROLLBACK/COMMIT pair removals, replacement of an op by
+    /// a narrower one) that keeps the verdict at its last step.  Deterministic; a fixpoint of itself.
     fn shrink(&mut self, sc: &Scenario, hist: &[usize], verdict: Verdict) -> Vec<usize> {
         let mut cur = hist.to_vec();
         'outer: loop {
@@ -779,6 +798,14 @@ impl<'a> Runner<'a> {
                         c.remove(i);
                         cands.push(c);
                     }
+                }
+            }
+            // then: an op replaced by a narrower one of the same kind (DELETE all -> DELETE one key, ..)
+            for i in 0..n {
+                for r in sc.simpler(cur[i]) {
+                    let mut c = cur.clone();
+                    c[i] = r;
+                    cands.push(c);
                 }
             }
             for c in cands {
@@ -827,13 +854,14 @@ fn pattern(sc: &Scenario, hist: &[usize]) -> String {
     format!("[{}]", out.join(";"))
 }
 
-fn is_subsequence_ending(p: &[usize], h: &[usize]) -> bool {
-    if p.is_empty() || h.is_empty() || p[p.len() - 1] != h[h.len() - 1] {
+/// `p` results from `h` by removing ops (not the last) and replacing ops by narrower ones
+fn is_subsequence_ending(sc: &Scenario, p: &[usize], h: &[usize]) -> bool {
+    if p.is_empty() || h.is_empty() || !sc.reduces_to(h[h.len() - 1], p[p.len() - 1]) {
         return false;
     }
     let mut i = 0;
     for &x in &h[..h.len() - 1] {
-        if i < p.len() - 1 && p[i] == x {
+        if i < p.len() - 1 && sc.reduces_to(x, p[i]) {
             i += 1;
         }
     }
@@ -859,7 +887,7 @@ struct Walker<'a, 'b> {
 impl<'a, 'b> Walker<'a, 'b> {
     fn report(&mut self, si: usize, sc: &Scenario, hist: &[usize], verdict: Verdict, expected: &str, observed: &str) {
         let key = (si, verdict as u8);
-        let known = self.memo.get(&key).and_then(|v| v.iter().find(|p| is_subsequence_ending(p, hist)).cloned());
+        let known = self.memo.get(&key).and_then(|v| v.iter().find(|p| is_subsequence_ending(sc, p, hist)).cloned());
         let (min, exp, obs) = match known {
             Some(p) => (p, expected.to_string(), observed.to_string()),
             None => {
@@ -999,29 +1027,30 @@ impl Check for C09 {
             w.rep.expect_nonzero(name);
         }
         let mut bounds = serde_json::Map::new();
-        for (si, sc) in scs.iter().enumerate() {
-            if let Some(o) = &only {
-                if *o != sc.name {
-                    continue;
+        // pass-major order (all `full` passes, then `core`, then the big `deep` ones): if the wall cap
+        // strikes, every scenario has been covered to its base depth
+        'all: for pass_name in ["full", "core", "deep"] {
+            for (si, sc) in scs.iter().enumerate() {
+                if let Some(o) = &only {
+                    if *o != sc.name {
+                        continue;
+                    }
                 }
-            }
-            for p in &sc.passes {
-                let allowed: Vec<usize> = (0..sc.ops.len()).filter(|&i| !p.without.contains(&sc.ops[i].name.as_str()) && (p.only.is_empty() || p.only.contains(&sc.ops[i].name.as_str()))).collect();
-                let maxd = ctx.tier.pick(p.depth_quick, p.depth_thorough);
-    // development aid: `--opt maxdepth=N` clamps every pass (never used by the registered runs)
-    let maxd = ctx.opt("maxdepth").and_then(|s| s.parse::<usize>().ok()).map_or(maxd, |m| maxd.min(m));
-                if maxd == 0 || ctx.opt("pass").map_or(false, |x| x != p.name) {
-                    continue;
+                for p in sc.passes.iter().filter(|p| p.name == pass_name) {
+                    let allowed: Vec<usize> = (0..sc.ops.len()).filter(|&i| !p.without.contains(&sc.ops[i].name.as_str()) && (p.only.is_empty() || p.only.contains(&sc.ops[i].name.as_str()))).collect();
+                    let maxd = ctx.tier.pick(p.depth_quick, p.depth_thorough);
+                    // development aid: `--opt maxdepth=N` clamps every pass (never used by the registered runs)
+                    let maxd = ctx.opt("maxdepth").and_then(|s| s.parse::<usize>().ok()).map_or(maxd, |m| maxd.min(m));
+                    if maxd == 0 || ctx.opt("pass").map_or(false, |x| x != p.name) {
+                        continue;
+                    }
+                    bounds.insert(format!("{}/{}", sc.name, p.name), json!({"alphabet": allowed.len(), "depth": maxd}));
+                    let mut prefix = vec![];
+                    w.dfs(si, sc, &allowed, &mut prefix, false, maxd, true);
+                    if w.stop {
+                        break 'all;
+                    }
                 }
-                bounds.insert(format!("{}/{}", sc.name, p.name), json!({"alphabet": allowed.len(), "depth": maxd}));
-                let mut prefix = vec![];
-                w.dfs(si, sc, &allowed, &mut prefix, false, maxd, true);
-                if w.stop {
-                    break;
-                }
-            }
-            if w.stop {
-                break;
             }
         }
         let executed = w.run.executed;
